@@ -4,6 +4,5 @@ CONSTANTS
   NSources = 3
   CodecLists <- ListsPlain3
   SubBox = 2
-  Nested = 0
-INVARIANT InvStreamAlgorithm
+  Nested = 1
 CHECK_DEADLOCK FALSE
